@@ -609,3 +609,10 @@ MANIFEST_ENTRY = dict(
          'equal to the composition; combined_layers merges adjacent compatible layers in order. Pixel compositing itself is outside (PIL).',
     note='Partial by design (pixel math is FFI); stub images; same-SRS rectangles.',
 )
+
+# --- manifest text refreshed after rounds 6-8 (obligations added since the entry above was written)
+MANIFEST_ENTRY['text'] = 'Shortcut soundness: is_opaque implies full, non-transparent, full-opacity coverage of the request; the single-layer fast path is taken only when equal to the composition; combined_layers merges adjacent compatible layers in order; the opaque-pruning loop of the WMS service drops only layers below an opaque one. Composition loop of LayerMerger.merge: for two layers over the background and every opacity in (0, 1) the result equals "over" compositing bottom to top within 2/255.'
+MANIFEST_ENTRY['note'] = 'Partial: PIL is replaced by per-pixel arithmetic on one representative pixel (stated model: blend, alpha_composite, paste with/without mask, convert, putalpha, ImageChops.multiply/constant); layer modes enumerated; clipping masks, palettes and resampling are outside; same-SRS rectangles.'
+META['assumptions'] = list(META.get('assumptions', [])) + ['composition obligations: PIL is replaced by per-pixel arithmetic on one representative pixel (premultiplied colour + alpha): blend, alpha_composite, paste with/without mask, convert, split/putalpha, ImageChops.multiply/constant; layer colours/alphas concrete, opacity symbolic']
+META['outside'] = "clipping masks (mask.py), palettes, resampling, PIL's integer rounding below 2/255; more than two layers in the composition obligations"
+META['bounds'] = META.get('bounds', '') + '; composition: two layers over the background, 8 mode/opacity configurations, opacity any real in (0, 1)'
